@@ -3,16 +3,389 @@ package main
 // Replay of counterexamples on the real code through `go test -overlay`.
 
 import (
+	"encoding/hex"
+	"encoding/json"
 	"fmt"
+	"go/types"
+	"os"
+	"os/exec"
+	"path/filepath"
+	"strconv"
+	"strings"
 )
+
+type replayParam struct {
+	Name  string `json:"name"`
+	Kind  string `json:"kind"` // bytes | int | bool | string
+	GoTyp string `json:"go_type"`
+	Len   int64  `json:"len,omitempty"`
+	Cap   int64  `json:"cap,omitempty"`
+	Nil   bool   `json:"nil,omitempty"`
+	Bytes string `json:"bytes_hex,omitempty"`
+	Val   string `json:"value,omitempty"`
+}
 
 // tryReplay attempts to turn the solver's model into a failing run of the real code.
 func (e *Engine) tryReplay(prop string, o *Oblig) map[string]interface{} {
-	return nil
+	c := o.decls
+	if c == nil || c.fn == nil || o.Verdict != "sat" || o.SMTFile == "" {
+		return nil
+	}
+	sig := c.fn.Type().(*types.Signature)
+	if sig.Recv() != nil {
+		return map[string]interface{}{"confirmed": false, "reason": "no replay template for methods (object fixture needed)"}
+	}
+	type pinfo struct {
+		v   *types.Var
+		val Value
+	}
+	var ps []pinfo
+	for i := 0; i < sig.Params().Len(); i++ {
+		p := sig.Params().At(i)
+		// entry values are keyed by the declaration's *types.Var; find by name
+		var val Value
+		for v, x := range c.entry.vars {
+			if v.Name() == p.Name() && v.Pos() == p.Pos() {
+				val = x
+			}
+		}
+		if val == nil {
+			return map[string]interface{}{"confirmed": false, "reason": "parameter " + p.Name() + " has no entry value"}
+		}
+		ps = append(ps, pinfo{p, val})
+	}
+	base, err := os.ReadFile(o.SMTFile)
+	if err != nil {
+		return nil
+	}
+	query := strings.TrimSuffix(strings.TrimSpace(string(base)), "(check-sat)")
+	// prefer small inputs
+	small := ""
+	for _, p := range ps {
+		if sv, ok := p.val.(SliceV); ok {
+			small += fmt.Sprintf("(assert (<= %s 64))\n(assert (<= %s 64))\n", sv.Len, sv.Cap)
+		}
+	}
+	var sp solverSpec
+	for _, s := range solvers {
+		if s.name == o.Solver {
+			sp = s
+		}
+	}
+	if sp.name == "" {
+		sp = solvers[0]
+	}
+	memName := c.entry.heap["M.byte"]
+	var model map[string]string
+	var values map[string]string
+	for attempt, extra := range []string{small, ""} {
+		if attempt == 1 && small == "" {
+			break
+		}
+		f1 := strings.TrimSuffix(o.SMTFile, ".smt2") + ".replay1.smt2"
+		os.WriteFile(f1, []byte(query+extra+"(check-sat)\n(get-model)\n"), 0o644)
+		r := runSolver(sp, f1, 10, "")
+		os.Remove(f1)
+		if r.verdict != "sat" {
+			continue
+		}
+		model = parseModel(r.output)
+		// second query: byte contents
+		var terms []string
+		ok := true
+		for _, p := range ps {
+			if sv, isSl := p.val.(SliceV); isSl {
+				n, err1 := strconv.ParseInt(evalScalar(model, sv.Len), 10, 64)
+				if err1 != nil || n > 1<<20 {
+					ok = false
+					break
+				}
+				if memName == "" {
+					continue
+				}
+				ref := evalScalar(model, sv.Ref)
+				for i := int64(0); i < n; i++ {
+					terms = append(terms, fmt.Sprintf("(select (select %s %s) %d)", memName, smtNum(ref), i))
+				}
+			}
+		}
+		if !ok {
+			continue
+		}
+		values = map[string]string{}
+		if len(terms) > 0 {
+			// pin the scalar part of the model, then ask for the bytes
+			var pins strings.Builder
+			for _, p := range ps {
+				switch x := p.val.(type) {
+				case SliceV:
+					for _, t := range []string{x.Ref, x.Len, x.Cap} {
+						if v, ok := model[t]; ok {
+							fmt.Fprintf(&pins, "(assert (= %s %s))\n", t, smtNum(v))
+						}
+					}
+				case IntV:
+					if v, ok := model[x.T]; ok {
+						fmt.Fprintf(&pins, "(assert (= %s %s))\n", x.T, smtNum(v))
+					}
+				}
+			}
+			f2 := strings.TrimSuffix(o.SMTFile, ".smt2") + ".replay2.smt2"
+			os.WriteFile(f2, []byte(query+extra+pins.String()+"(check-sat)\n(get-value ("+strings.Join(terms, " ")+"))\n"), 0o644)
+			r2 := runSolver(sp, f2, 10, "")
+			os.Remove(f2)
+			if r2.verdict != "sat" {
+				continue
+			}
+			values = parseValues(r2.output)
+		}
+		break
+	}
+	if model == nil || values == nil {
+		return map[string]interface{}{"confirmed": false, "reason": "could not extract a concrete model"}
+	}
+	var params []replayParam
+	for _, p := range ps {
+		rp := replayParam{Name: p.v.Name(), GoTyp: types.TypeString(p.v.Type(), func(pk *types.Package) string { return pk.Name() })}
+		switch x := p.val.(type) {
+		case SliceV:
+			st, ok := p.v.Type().Underlying().(*types.Slice)
+			if !ok || !isByteType(st.Elem()) {
+				return map[string]interface{}{"confirmed": false, "reason": "no replay template for parameter type " + rp.GoTyp}
+			}
+			rp.Kind = "bytes"
+			rp.Len, _ = strconv.ParseInt(evalScalar(model, x.Len), 10, 64)
+			rp.Cap, _ = strconv.ParseInt(evalScalar(model, x.Cap), 10, 64)
+			ref := evalScalar(model, x.Ref)
+			rp.Nil = ref == "0"
+			buf := make([]byte, rp.Len)
+			for i := int64(0); i < rp.Len; i++ {
+				k := fmt.Sprintf("(select (select %s %s) %d)", memName, smtNum(ref), i)
+				if v, ok := values[k]; ok {
+					n, _ := strconv.Atoi(v)
+					buf[i] = byte(n)
+				}
+			}
+			rp.Bytes = hex.EncodeToString(buf)
+		case IntV:
+			if _, _, ok := intRange(p.v.Type()); ok {
+				rp.Kind = "int"
+				rp.Val = evalScalar(model, x.T)
+			} else {
+				return map[string]interface{}{"confirmed": false, "reason": "no replay template for parameter type " + rp.GoTyp}
+			}
+		case BoolV:
+			rp.Kind = "bool"
+			rp.Val = evalScalar(model, x.T)
+		default:
+			return map[string]interface{}{"confirmed": false, "reason": "no replay template for parameter type " + rp.GoTyp}
+		}
+		params = append(params, rp)
+	}
+	rec := map[string]interface{}{"template": "bytes_fn", "function": c.fn.FullName(), "package_dir": relTo(e.repo, filepath.Dir(o.Pos.Filename)),
+		"package": c.pkg.Name, "func_name": c.fn.Name(), "params": params, "expect": expectOf(o)}
+	out, confirmed := runReplay(e.repo, rec)
+	rec["outcome"] = out
+	rec["confirmed"] = confirmed
+	return rec
 }
 
+func isByteType(t types.Type) bool {
+	b, ok := t.Underlying().(*types.Basic)
+	return ok && b.Kind() == types.Uint8
+}
+
+func expectOf(o *Oblig) string {
+	switch o.Kind {
+	case "index", "slice", "nil", "div", "make", "assert-type", "panic", "nilmap":
+		return "panic"
+	}
+	return "contract"
+}
+
+func smtNum(v string) string {
+	if strings.HasPrefix(v, "-") {
+		return "(- " + v[1:] + ")"
+	}
+	return v
+}
+
+func evalScalar(model map[string]string, term string) string {
+	if n, ok := isNumLit(term); ok {
+		return n.String()
+	}
+	if v, ok := model[term]; ok {
+		return v
+	}
+	return "0"
+}
+
+// parseValues parses the answer of (get-value (...)): ((term value) ...)
+func parseValues(out string) map[string]string {
+	res := map[string]string{}
+	i := strings.Index(out, "((")
+	if i < 0 {
+		return res
+	}
+	toks := tokenizeSexp(out[i:])
+	// toks: ( ( <term tokens> <value tokens> ) ( ... ) )
+	pos := 1
+	for pos < len(toks) && toks[pos] == "(" {
+		// read one pair
+		depth := 0
+		j := pos
+		for ; j < len(toks); j++ {
+			if toks[j] == "(" {
+				depth++
+			} else if toks[j] == ")" {
+				depth--
+				if depth == 0 {
+					break
+				}
+			}
+		}
+		inner := toks[pos+1 : j]
+		// term is the first s-expression
+		tEnd := sexpEnd(inner, 0)
+		term := joinSexp(inner[:tEnd])
+		val := joinSexp(inner[tEnd:])
+		if strings.HasPrefix(val, "(- ") {
+			val = "-" + strings.TrimSuffix(val[3:], ")")
+		}
+		res[term] = val
+		pos = j + 1
+	}
+	return res
+}
+
+func sexpEnd(toks []string, start int) int {
+	if toks[start] != "(" {
+		return start + 1
+	}
+	d := 0
+	for i := start; i < len(toks); i++ {
+		if toks[i] == "(" {
+			d++
+		} else if toks[i] == ")" {
+			d--
+			if d == 0 {
+				return i + 1
+			}
+		}
+	}
+	return len(toks)
+}
+
+func joinSexp(toks []string) string {
+	var b strings.Builder
+	for i, t := range toks {
+		if i > 0 && t != ")" && toks[i-1] != "(" {
+			b.WriteByte(' ')
+		}
+		b.WriteString(t)
+	}
+	return b.String()
+}
+
+// runReplay generates an in-package test, injects it with -overlay and runs it against repo.
+func runReplay(repo string, rec map[string]interface{}) (string, bool) {
+	params, _ := rec["params"].([]replayParam)
+	pkg := rec["package"].(string)
+	dir := rec["package_dir"].(string)
+	fn := rec["func_name"].(string)
+	var b strings.Builder
+	fmt.Fprintf(&b, "package %s\n\nimport (\n\t\"encoding/hex\"\n\t\"fmt\"\n\t\"testing\"\n)\n\nvar _ = hex.DecodeString\n\n", pkg)
+	fmt.Fprintf(&b, "func TestGowpReplay(t *testing.T) {\n")
+	var args []string
+	for i, p := range params {
+		name := fmt.Sprintf("a%d", i)
+		switch p.Kind {
+		case "bytes":
+			if p.Nil {
+				fmt.Fprintf(&b, "\tvar %s []byte\n", name)
+			} else {
+				fmt.Fprintf(&b, "\t%s := make([]byte, %d, %d)\n\t{ d, _ := hex.DecodeString(%q); copy(%s, d) }\n", name, p.Len, p.Cap, p.Bytes, name)
+			}
+			args = append(args, name)
+		case "int":
+			fmt.Fprintf(&b, "\tvar %s %s = %s\n", name, p.GoTyp, p.Val)
+			args = append(args, name)
+		case "bool":
+			fmt.Fprintf(&b, "\tvar %s bool = %s\n", name, p.Val)
+			args = append(args, name)
+		}
+	}
+	fmt.Fprintf(&b, "\tdefer func() {\n\t\tif r := recover(); r != nil {\n\t\t\tfmt.Printf(\"GOWP-PANIC: %%v\\n\", r)\n\t\t\treturn\n\t\t}\n\t}()\n")
+	fmt.Fprintf(&b, "\tres := fmt.Sprint(func() []interface{} { return gowpPack(%s(%s)) }())\n", fn, strings.Join(args, ", "))
+	fmt.Fprintf(&b, "\tfmt.Printf(\"GOWP-RETURNED: %%s\\n\", res)\n}\n\nfunc gowpPack(xs ...interface{}) []interface{} { return xs }\n")
+	tmp, err := os.MkdirTemp("", "gowp-replay-")
+	if err != nil {
+		return "mktemp failed", false
+	}
+	defer os.RemoveAll(tmp)
+	testFile := filepath.Join(tmp, "zz_gowp_replay_test.go")
+	os.WriteFile(testFile, []byte(b.String()), 0o644)
+	ov := map[string]map[string]string{"Replace": {filepath.Join(repo, dir, "zz_gowp_replay_test.go"): testFile}}
+	ovData, _ := json.Marshal(ov)
+	ovFile := filepath.Join(tmp, "overlay.json")
+	os.WriteFile(ovFile, ovData, 0o644)
+	cmd := exec.Command("go", "test", "-overlay", ovFile, "-vet=off", "-count=1", "-v", "-timeout", "60s", "-run", "^TestGowpReplay$", "./"+dir)
+	cmd.Dir = repo
+	cmd.Env = append(os.Environ(), "GOFLAGS=-mod=mod", "GOPROXY=off", "GOSUMDB=off", "GOTOOLCHAIN=local")
+	out, _ := cmd.CombinedOutput()
+	rec["test_source"] = b.String()
+	rec["cmd"] = "go test -overlay <overlay.json mapping " + filepath.Join(dir, "zz_gowp_replay_test.go") + " to test_source> -vet=off -count=1 -timeout 60s -run ^TestGowpReplay$ ./" + dir
+	text := string(out)
+	for _, l := range strings.Split(text, "\n") {
+		if strings.HasPrefix(l, "GOWP-PANIC:") {
+			return strings.TrimSpace(l), rec["expect"] == "panic"
+		}
+	}
+	for _, l := range strings.Split(text, "\n") {
+		if strings.HasPrefix(l, "GOWP-RETURNED:") {
+			return strings.TrimSpace(l), false
+		}
+	}
+	if strings.Contains(text, "panic:") {
+		return truncate(text, 600), rec["expect"] == "panic"
+	}
+	return "no result: " + truncate(text, 400), false
+}
+
+// replayFile re-runs the replay recorded in a replay JSON file.
 func replayFile(path string) int {
-	fmt.Println("replay: not implemented for", path)
-	return 2
+	data, err := os.ReadFile(path)
+	if err != nil {
+		fmt.Println("replay:", err)
+		return 2
+	}
+	var rec map[string]interface{}
+	if err := json.Unmarshal(data, &rec); err != nil {
+		fmt.Println("replay:", err)
+		return 2
+	}
+	fmt.Printf("obligation: %v\nposition:   %v\nverdict:    %v\n", rec["obligation"], rec["pos"], rec["verdict"])
+	rp, ok := rec["replay"].(map[string]interface{})
+	if !ok {
+		fmt.Println("no executable replay recorded (no-failing-input-found); solver output:")
+		fmt.Println(rec["solver_output"])
+		return 1
+	}
+	// rebuild typed params
+	raw, _ := json.Marshal(rp["params"])
+	var params []replayParam
+	json.Unmarshal(raw, &params)
+	rp["params"] = params
+	if _, ok := rp["package"].(string); !ok {
+		fmt.Println("replay record incomplete:", rp["reason"])
+		return 1
+	}
+	out, confirmed := runReplay(envOr("GOWP_REPO", "/repo"), rp)
+	fmt.Println("outcome:", out)
+	if confirmed {
+		fmt.Println("violation reproduced on the real code")
+		return 1
+	}
+	fmt.Println("violation not reproduced")
+	return 0
 }
-
